@@ -9,7 +9,13 @@ props = [c['property_id'] for c in man['checks']]
 st = subprocess.run(['git', '-C', '/repo', 'status', '--porcelain', '--untracked-files=no'], capture_output=True, text=True).stdout
 if st.strip():
     print('repo dirty'); sys.exit(9)
-only = sys.argv[1:]
+args = sys.argv[1:]
+CHK, KEY = V, 'caught_by'
+if '--checks-at' in args:        # evaluate with another checkout of /verif (e.g. the commit before a held-out wave was looked at)
+    i = args.index('--checks-at'); CHK = args[i + 1]; del args[i:i + 2]
+if '--key' in args:              # meta.json key to record under (default caught_by)
+    i = args.index('--key'); KEY = args[i + 1]; del args[i:i + 2]
+only = args
 rows = []
 for d in sorted(os.listdir(V + '/seeded')):
     if only and not any(d.startswith(o) for o in only):
@@ -26,7 +32,7 @@ for d in sorted(os.listdir(V + '/seeded')):
     caught, broken = [], []
     procs = {}
     for p in props:
-        procs[p] = subprocess.Popen(['/venv/bin/python', V + '/check', p, '--tier', 'quick', '--no-evidence'], stdout=subprocess.PIPE, stderr=subprocess.STDOUT, text=True)
+        procs[p] = subprocess.Popen(['/venv/bin/python', CHK + '/check', p, '--tier', 'quick', '--no-evidence'], stdout=subprocess.PIPE, stderr=subprocess.STDOUT, text=True)
     for p, pr in procs.items():
         out = pr.communicate()[0]
         if pr.returncode == 1 and 'VIOLATION property=%s' % p in out:
@@ -36,8 +42,8 @@ for d in sorted(os.listdir(V + '/seeded')):
             broken.append(p)
     subprocess.run(['git', '-C', '/repo', 'reset', '-q', '--hard', 'HEAD'])
     meta = json.load(open(sd + '/meta.json'))
-    meta['caught_by'] = caught
-    meta['analysis_error_in'] = broken
+    meta[KEY] = caught
+    meta['analysis_error_in' if KEY == 'caught_by' else KEY + '_exit2'] = broken
     json.dump(meta, open(sd + '/meta.json', 'w'), indent=1)
     rows.append((d, 'caught' if caught else 'MISSED', caught + (['exit2:' + ','.join(broken)] if broken else [])))
 for d, s, c in rows:
